@@ -38,6 +38,7 @@ func runC26(c *Ctx) {
 	c.rule(P, "cookie", "entry cookie = index+1; resume skips indices < cookie; eof = !stopped-for-size", 6)
 	runC26OrderPreserved(c)
 	runC26EntrySkip(c, P)
+	runCacheKeyAgreement(c, P)
 	ent, err := p.entrySet()
 	if err != nil {
 		c.undecided(P, "fit", "entries", "", err.Error())
@@ -332,6 +333,7 @@ func runC27(c *Ctx) {
 	}
 	runC27Truthful(c)
 	runC27DumpLive(c)
+	runC27MappingsCopy(c, P)
 	reach := p.reachableFrom([]*ssa.Function{hc})
 	isEntry := map[*ssa.Function]bool{hc: true}
 	fl := newFlow(p)
@@ -553,6 +555,7 @@ func runC27(c *Ctx) {
 func runC28(c *Ctx) {
 	p := c.P
 	const P = "C28"
+	runTimeoutsComplete(c, P)
 	c.rule(P, "record-marking", "every in-package construction that reaches Listen has UseRecordMarking == true", 2)
 	c.rule(P, "select", "acceptLoop: UseRecordMarking true edge ⇒ handleConnectionWithRecordMarking", 1)
 	c.rule(P, "procs", "NULL, MNT, GETATTR are dispatched", 3)
@@ -648,6 +651,7 @@ func runC28(c *Ctx) {
 func runC30(c *Ctx) {
 	p := c.P
 	const P = "C30"
+	runC30CloneCell(c, P)
 	c.rule(P, "floor", "Validate refuses 0<MinVersion<TLS1.2 and dominates the tls.Config construction; config fields are the validated ones; go directive >= 1.22", 5)
 	c.rule(P, "listen", "Listen: TLS-enabled edge reaches only tls.Listen with the BuildConfig result", 1)
 	c.rule(P, "ca", "ClientCAs set from CAFile when client certificates are verified", 1)
